@@ -11,6 +11,24 @@ CHECKS = {
  'C01': ('search', MC, 'bounded exhaustive enumeration of score matrices/configurations through parse_sentence with a pop monitor; independent all-derivations oracle',
          'Every score matrix of full products and deviation-bounded families, for 12 synthetic and 3 real grammars, both head directions, n<=4(5), unary penalties and beam settings, and every step budget of a family, is run through the real parsing.h; the returned score must equal the maximum over all independently enumerated derivations and the hook must never see a priority increase.',
          'Trusted: derivation oracle (mc/search.py), ctypes shim, exact dyadic arithmetic; bounds: n<=4 (5 in thorough for one-tag grammars), score alphabet {0,-1,-4,-0.5,-8}; beam ties and threshold margins are unspecified, not judged.', '5/C01'),
+ 'C02': ('search', MC, 'bounded exhaustive enumeration of search executions; structural validator of every returned tree',
+         'Every returned tree of every execution in the bounded space (deviation-bounded and full-product score matrices x 15 grammars x n<=3(4) x n-best {1,2,5} x beam settings, native driver and full stack) is validated against the statement: leaves = tokens in order with admitted supertags, every node licensed by the grammar callback, allowed root, no unary root for n>1, nothing but trees or the placeholder.',
+         'Trusted: validator in mc/search.py, transliterated parsing.pyx on the full path, category print/parse round trip for the grammars used.', '5/C02'),
+ 'C09': ('search', MC, 'bounded exhaustive enumeration of search executions; score recomputed from each returned tree',
+         'For every returned tree of every execution (grammars of both head directions, penalties {0,0.5,0.125}, n-best {1,3}) the score is recomputed from the tree and its head flags exactly as the statement says and compared with == on an exact dyadic alphabet; placeholders must carry -inf.',
+         'Trusted: exact float32 arithmetic on the dyadic alphabet; transliterated parsing.pyx.', '5/C09'),
+ 'C10': ('search', MC, 'bounded exhaustive enumeration of search executions in n-best mode against the sorted score list of all derivations',
+         'For every execution and every k in {1,2,3,5,#derivations+1,50}: returned scores == first min(k,#) of the sorted scores of all independently enumerated derivations, trees pairwise different, non-increasing, each valid and correctly scored.',
+         'Trusted: derivation oracle; bounds n<=3 (4 for synthetic grammars).', '5/C10'),
+ 'C11': ('history', MC, 'exhaustive enumeration of batch histories x chunkings x pool completion schedules on a virtual pool; differential oracle (solo result)',
+         'All sequences (len<=3, with repetition) and permutations (size 4; 5 thorough) of a 6-sentence pool x processes {1..4} x max_chunk_size {0,1,2,20} x every completion schedule of the chunk tasks; depccg/parsing.py runs unmodified over a virtual Pool/time; result[i] must equal the solo result; every +-1 shape fault must raise before any parse_sentence call.',
+         'Trusted: virtual pool semantics (validated against real multiprocessing.Pool on two batches); all tasks share one interpreter; transliterated parsing.pyx.', '5/C11'),
+ 'C12': ('search', MC, 'bounded exhaustive enumeration of search executions over grammars with several results per pair; reader round trips over all licensed trees',
+         'Parser part: every node of every returned tree must carry (label, symbol, head direction) of a grammar result with that category for its children, and the stored rule index must name such a result (G4 has same-category results with different labels and two-target unary rules, both head directions). Reader part: every licensed derivation printed in each readable format and read back must carry the deriving rule label (and head direction where the format has no head field).',
+         'Trusted: grammar callbacks as ground truth; transliterated parsing.pyx.', '5/C12'),
+ 'C16': ('search', MC, 'exhaustive enumeration of tag rows x pruning_size x beta through parse_sentence against the admitted-set oracle',
+         'Every combination of tag rows over {0,-1,-2,-4,-1e33} for n<=2 words x pruning_size {1,2,3} x beta {off,0.5,0.2,0.01} in a grammar where each tag choice yields a distinct derivation: leaves must be admitted, result must be the optimum over admitted-only derivations, failure iff none.',
+         'Ties at the pruning boundary, probabilities within e^0.3 of the threshold and all-zero probabilities are unspecified and not judged (counted).', '5/C16'),
 }
 
 PENDING = {}
